@@ -307,6 +307,8 @@ func init() {
 	reg("math.Pow", mathPow)
 	reg("math.Log", concreteF1(math.Log))
 	reg("math.Log2", concreteF1(math.Log2))
+	reg("math.Log10", concreteF1(math.Log10))
+	reg("math.log10", concreteF1(math.Log10))
 	reg("math.Exp", concreteF1(math.Exp))
 	reg("math.Trunc", func(in *Interp, fn *ssa.Function, a []Value) Value {
 		x := a[0].(*Term)
